@@ -6,18 +6,20 @@
     forgotten, IS the model's primitive (`forget_next` … `forget_lit`): the counted reading moves the
     parser state exactly as the model does, primitive by primitive; the composite parsers are the
     model's text over these primitives.
-  * The two places where the counted steps WERE not linear in the input, with parametric lower bounds:
+  * The place where the counted steps WERE not linear in the input because of `pars.Until(':')`:
       - `pars.Until(':')` scans to the end of the input when there is no colon
         (`untilColon_scans_to_end`).  The CONTIG parser called it until /repo a4b3f5d: one CONTIG line
         cost the whole rest of the file, `k` such lines `Θ(k · n)` (finding K7D).  REPAIRED (F38): the
         parser now calls `pars.Until` with a filter that also accepts the line ends and requires the
         colon; `contigField_cost_le` — from EVERY state the counted steps of the CONTIG parser are at
         most two per byte in front of the first line end plus 37 (a potential argument, `Lin`: every
-        primitive the parser calls pays for the bytes it consumes out of the line's budget);
-      - the prefix loop of `quotedQualifierParser` starts `bytes.Index` at the beginning of the token
-        and copies the tail in every round: a quoted value of `k` continuation lines costs at least
-        `(d + 2) · k · (k + 1) / 2` steps for an indent of `d` columns, i.e. more than
-        `len(token)² / (2 · (d + 2))` (`stripContCost_quadratic`) — finding K7E, open.
+        primitive the parser calls pays for the bytes it consumes out of the line's budget).
+  * The prefix loop of `quotedQualifierParser`.  BEFORE 2612fae (`stripContCostOld`, the old reading,
+    K7E) it started `bytes.Index` at the beginning of the token and copied the tail in every round: a
+    quoted value of `k` continuation lines cost at least `(d + 2) · k · (k + 1) / 2` steps for an
+    indent of `d` columns, i.e. more than `len(token)² / (2 · (d + 2))` (`stripContCostOld_quadratic`).
+    The one-pass loop of today (`stripContCost`) spends at most `len(prefix) + 2` steps per byte of
+    the token (`stripContCost_linear`).
   * families (`contigFam`, `quotedFam`, …) whose step counts were EVALUATED (`#eval`, not theorems;
     the kernel cannot run the counted reader on inputs of useful size) — see the table at the end.
   Core Lean only.
@@ -26,7 +28,7 @@ import Gts.Lemmas.GbCostReader
 import Gts.Lemmas.ParsRun
 namespace Gts.Cost
 open Gts.Pars (Bytes PS Err P indexWhere)
-open Gts.GenBank (bs sp stripCont findSub indexOf Registry contigStop)
+open Gts.GenBank (bs sp stripCont stripContOld stripLoop findSub indexOf Registry contigStop)
 
 /-- run an instrumented parser from counter 0 and throw the counter away -/
 def forget {α} (p : PC α) : P α := fun s =>
@@ -94,6 +96,17 @@ theorem untilColon_scans_to_colon (c : CS) (i : Nat) (h : indexOf 58 c.ps.rest =
 
 /-! ### the prefix loop of `quotedQualifierParser` -/
 
+/-- steps of the in-place loop of `quotedQualifierParser` BEFORE 2612fae (`stripContOld`; the counted
+reader no longer uses it): every round ran `bytes.Index` from the start of the token and copied the
+tail down — at most `len(token)` byte operations each, at least the bytes in front of the occurrence
+plus the bytes behind the prefix; charged `len(token)` -/
+def stripContCostOld (pre : Bytes) : Nat → Bytes → Nat
+  | 0, _ => 0
+  | f + 1, t =>
+    match findSub (10 :: pre) t 0 with
+    | none => t.length
+    | some i => t.length + stripContCostOld pre f (t.take (i + 1) ++ t.drop (i + 1 + pre.length))
+
 /-- `k` copies of `b` -/
 def rep (k : Nat) (b : Bytes) : Bytes := (List.replicate k b).flatten
 
@@ -149,17 +162,17 @@ theorem findSub_stride (d : Nat) (hd : 1 ≤ d) (rest : Bytes) : ∀ (j i : Nat)
     rw [findSub_stride (d' + 1) hd rest j (i + 1 + 1)]
     congr 1; omega
 
-/-- THE PREFIX LOOP IS QUADRATIC: a token of `m` continuation lines (indent `d ≥ 1`, behind `j`
+/-- THE PREFIX LOOP WAS QUADRATIC (before 2612fae): a token of `m` continuation lines (indent `d ≥ 1`, behind `j`
 lines that are already stripped) costs at least `(d + 2) · m · (m + 1) / 2` counted steps, whatever
 the fuel above `m`.  The token has `2·j + m·(d + 2)` bytes: for `j = 0` the cost exceeds
 `len² / (2·(d + 2))`. -/
-theorem stripContCost_quadratic (d : Nat) (hd : 1 ≤ d) : ∀ (m j f : Nat), m ≤ f →
+theorem stripContCostOld_quadratic (d : Nat) (hd : 1 ≤ d) : ∀ (m j f : Nat), m ≤ f →
     (d + 2) * (m * (m + 1)) ≤
-      2 * stripContCost (sp d) f (rep j [10, 120] ++ rep m (contLine d))
+      2 * stripContCostOld (sp d) f (rep j [10, 120] ++ rep m (contLine d))
   | 0, _, _, _ => by simp
   | m + 1, j, f, hf => by
     obtain ⟨f', rfl⟩ : ∃ f', f = f' + 1 := ⟨f - 1, by omega⟩
-    rw [rep_succ (k := m), stripContCost, show (0 : Nat) = 0 from rfl]
+    rw [rep_succ (k := m), stripContCostOld, show (0 : Nat) = 0 from rfl]
     have hfs := findSub_stride d hd (rep m (contLine d)) j 0
     rw [Nat.zero_add] at hfs
     rw [hfs]
@@ -190,7 +203,7 @@ theorem stripContCost_quadratic (d : Nat) (hd : 1 ≤ d) : ∀ (m j f : Nat), m 
       rw [e3, e4, rep_succ' j]
       simp
     rw [hnew, hlen]
-    have ih := stripContCost_quadratic d hd m (j + 1) f' (by omega)
+    have ih := stripContCostOld_quadratic d hd m (j + 1) f' (by omega)
     have e5 : (d + 2) * ((m + 1) * (m + 1 + 1)) = (d + 2) * (m * (m + 1)) + 2 * ((m + 1) * (d + 2)) := by
       rw [Nat.mul_comm (m + 1) (d + 2)]
       simp only [Nat.mul_add, Nat.add_mul, Nat.mul_one, Nat.one_mul]
@@ -198,14 +211,14 @@ theorem stripContCost_quadratic (d : Nat) (hd : 1 ≤ d) : ∀ (m j f : Nat), m 
     rw [e5]
     omega
 
-/-- … so NO linear bound in the length of the token holds for the counted steps of the loop, at the
+/-- … so NO linear bound in the length of the token held for the counted steps of the old loop, at the
 indent of a GenBank feature table (21 columns) -/
-theorem stripContCost_not_linear (c e : Nat) :
-    ∃ t : Bytes, c * t.length + e < stripContCost (sp 21) t.length t := by
+theorem stripContCostOld_not_linear (c e : Nat) :
+    ∃ t : Bytes, c * t.length + e < stripContCostOld (sp 21) t.length t := by
   let m := 2 * c + 2 * e + 1
   refine ⟨rep m (contLine 21), ?_⟩
   have hlen : (rep m (contLine 21)).length = m * 23 := by rw [rep_length, contLine_length]
-  have hq := stripContCost_quadratic 21 (by decide) m 0 (m * 23) (by omega)
+  have hq := stripContCostOld_quadratic 21 (by decide) m 0 (m * 23) (by omega)
   have h0 : rep 0 [10, 120] ++ rep m (contLine 21) = rep m (contLine 21) := by simp [rep]
   rw [h0] at hq
   rw [hlen]
@@ -219,6 +232,24 @@ theorem stripContCost_not_linear (c e : Nat) :
   rw [e1] at hq
   rw [e2]
   omega
+
+/-- one round of today's loop costs at most `len(p) + 1` -/
+theorem stripLoopCost_le (rp : Bytes) (k : Nat) : ∀ (t acc : Bytes),
+    stripLoopCost rp k acc t ≤ (rp.length + 1) * t.length
+  | [], _ => by simp [stripLoopCost]
+  | c :: t, acc => by
+    rw [stripLoopCost, List.length_cons, Nat.mul_succ]
+    have hmin : 1 + min rp.length (acc.length + 1) ≤ rp.length + 1 := by omega
+    split
+    · have := stripLoopCost_le rp k t ((c :: acc).drop k); omega
+    · have := stripLoopCost_le rp k t (c :: acc); omega
+
+/-- THE ONE-PASS LOOP IS LINEAR: at most `len(prefix) + 2` counted steps per byte of the token (the
+move and the comparison of the end of `token[:w]` with `"\n" ++ prefix`), for EVERY token and EVERY
+prefix, the empty one included -/
+theorem stripContCost_linear (pre t : Bytes) : stripContCost pre t ≤ (pre.length + 2) * t.length := by
+  have := stripLoopCost_le (10 :: pre).reverse pre.length t []
+  simpa [stripContCost] using this
 
 /-! ### every other primitive looks at most at the bytes that are left -/
 
@@ -663,7 +694,7 @@ evaluated with `#eval` for `k = 16, 64, 256, 1024` — steps per input byte:
 
     family                                                      16     64    256   1024   accepted
     contigFam    k CONTIG lines without a colon                  8      9      9      9   yes   (15 / 40 / 136 / 520 until a4b3f5d)
-    quotedFam    one quoted /note of k continuation lines        8     33    137    554   yes   QUADRATIC
+    quotedFam    one quoted /note of k continuation lines       15     21     23     23   yes   (8 / 33 / 137 / 554 before 2612fae: K7E)
     commentFam   k one-line COMMENT fields                        5      5      5      5   yes
     skipFam      k unknown lines (skipped)                        7      7      7      7   yes
     featFam      k features, location join(1..2,3..4), 2 qual.    2      2      2      2   yes
@@ -679,7 +710,7 @@ evaluated with `#eval` for `k = 16, 64, 256, 1024` — steps per input byte:
 On the REAL code (`gts length < file`, this machine): contigFam 500 / 2000 / 8000 lines (9.6 / 38 /
 152 KB): 0.09 / 0.55 / 10.5 s until a4b3f5d (scan alone, 15 / 61 / 243 KB: 0.07 / 1.15 / 18.8 s before,
 3 / 9 / 33 ms after); quotedFam 5000 / 20000 / 80000 lines (115 KB / 460 KB / 1.8 MB): 0.04 /
-0.48 / 16.5 s.  Three further super-linear shapes are in code the counted reading does NOT count
+0.48 / 16.5 s before 2612fae (CPU time of the scan alone: 0.025 / 0.37 / 18 s), 0.003 / 0.010 / 0.06 s since.  Three further super-linear shapes are in code the counted reading does NOT count
 (construction of values): `join(` of k parts — `LocationList.Push` walks to the end of its linked list
 for every part, `gts.AsLocation` alone 10000 / 20000 / 40000 parts: 0.85 / 4.8 / 23 s —, k qualifiers
 with distinct unknown names in one feature (the registry is re-sorted on every learned name;
